@@ -47,9 +47,39 @@ def sized_graph(rng, kind):
     return S.serial_graph(rng, depth=1, max_nodes=4)
 
 
+FNAMES = ["register.nir", "register.nir", "model", "checkpoint_12", "data.h5", "a.b.c", "net v2 (final).nir", "mod\u00e8le.nir",
+          ".hidden", "UPPER.NIR"]
+
+
+def twin_graphs(rng):
+    """two graphs of identical structure, shapes and dtypes whose parameters differ only in ONE interior element of a
+    large array, or only below printing precision"""
+    n = rng.choice([40, 64])
+    w = (np.arange(n * n, dtype="float64").reshape(n, n) % 17) / 8.0
+    w2 = w.copy()
+    if rng.random() < 0.5:
+        w2[n // 2, n // 2] += 1.0
+    else:
+        w2[n // 2, n // 2] += 1e-10
+    def g(x):
+        return {"k": "NIRGraph", "nodes": {"input": {"k": "Input", "args": {"input_type": np.array([n])}},
+                                           "w": {"k": "Affine", "args": {"weight": x, "bias": np.zeros(n)}},
+                                           "output": {"k": "Output", "args": {"output_type": np.array([n])}}},
+                "edges": [("input", "w"), ("w", "output")]}
+    return g(w), g(w2)
+
+
 def gen(rng, tier):
     N = 60 if tier == "quick" else 700
     cases = []
+    # near-identical graphs written one after the other to one path
+    for _ in range(8 if tier == "quick" else 60):
+        a, b = twin_graphs(rng)
+        ops = [{"op": "write", "recipe": V.enc_recipe(a)}] + [{"op": "read"}] * rng.randint(0, 1) + \
+              [{"op": "write", "recipe": V.enc_recipe(b)}, {"op": "read"}]
+        if rng.random() < 0.5:
+            ops += [{"op": "write", "recipe": V.enc_recipe(a)}, {"op": "read"}]
+        cases.append({"kind": "hist", "target": rng.choice(["str", "path"]), "ops": ops, "fname": rng.choice(FNAMES)})
     for _ in range(N):
         target = rng.choice(["str", "str", "path", "bytesio", "tempfile"])
         ops = []
@@ -69,7 +99,11 @@ def gen(rng, tier):
                     ops.append({"op": "version"})
             if rng.random() < 0.15:
                 ops.insert(0, {"op": "read"})
-        cases.append({"kind": "hist", "target": target, "ops": ops})
+        c = {"kind": "hist", "target": target, "ops": ops}
+        if target in ("str", "path"):
+            c["fname"] = rng.choice(FNAMES)
+            c["pre"] = rng.choice(["none", "none", "none", "empty"])     # an empty placeholder file (mkstemp style) may exist
+        cases.append(c)
     return cases
 
 
@@ -84,8 +118,10 @@ def run(c):
     fobj = None
     try:
         if c["target"] in ("str", "path"):
-            p = os.path.join(tmpdir, "register.nir")
+            p = os.path.join(tmpdir, c.get("fname", "register.nir"))
             tgt = p if c["target"] == "str" else pathlib.Path(p)
+            if c.get("pre") == "empty":
+                open(p, "wb").close()
         elif c["target"] == "bytesio":
             p = None
             tgt = fobj = io.BytesIO()
@@ -112,6 +148,9 @@ def run(c):
                     last, unspecified = (b[1], r), False
                     obs.append("RWrote")
                     n_writes += 1
+                    if p and not fail and sorted(os.listdir(tmpdir)) != [os.path.basename(p)]:
+                        fail = (f"step {i}: after nir.write({os.path.basename(p)!r}) the directory contains "
+                                f"{sorted(os.listdir(tmpdir))}: the path is not where the graph went, or residue was left")
                 except BaseException:  # noqa: BLE001
                     unspecified = True
                     obs.append("RWriteRaised")
@@ -151,6 +190,8 @@ def run(c):
                 q = p + ".moved"
                 os.rename(p, q)
                 os.remove(q)
+                if os.listdir(tmpdir):
+                    raise RuntimeError(f"files left behind after the path was deleted: {sorted(os.listdir(tmpdir))}")
                 with quiet():
                     nir.write(tgt, V.build({"k": "NIRGraph", "nodes": {}, "edges": []}))
                     nir.read(tgt)
